@@ -18,7 +18,7 @@ for p in props:
     if os.path.exists(path):
         mod = importlib.import_module("checks." + pid.lower())
         meta = getattr(mod, "META", None)
-    if not meta:
+    if not meta or not meta.get("ready"):
         na.append({"property_id": pid, "reason": "not claimed: no check has been built for this property yet (the technique applies, see DESIGN.md section 7)"})
         continue
     checks.append({
